@@ -1,7 +1,15 @@
 import LaunchpadModel.Lemmas.OpenEditionFull
 import LaunchpadModel.Lemmas.OpenEditionFullLimits
+import LaunchpadModel.Lemmas.OpenEditionFullPay
+import LaunchpadModel.Lemmas.OpenEditionFullWindow3
+import LaunchpadModel.Lemmas.OpenEditionFullPrice
+import LaunchpadModel.Lemmas.OpenEditionFullTrading
 import LaunchpadModel.Props.C01
 import LaunchpadModel.Props.C03
+import LaunchpadModel.Props.C02
+import LaunchpadModel.Props.C04
+import LaunchpadModel.Props.C07
+import LaunchpadModel.Props.C19
 /-!
 # Refinement theorems: the composite open-edition model `LP.OE` (Model/OpenEditionFull.lean) refines the aspect models
 
@@ -489,5 +497,1033 @@ theorem C03_fulloe_counter_exact_wl (s : OE.State) (m : OE.Minter) (hm : s.minte
   have := C03_counter_exact_wl (OE.limitsOf s m) hfresh a (OE.limitsOps s ops)
   rw [← heq] at this
   simpa [OE.limitsOf, OE.kind_flavor] using this
+
+/-! ## C02 — a mint charges exactly the price and disburses all of it
+
+Projection `OE.payOf` (family `openEdition`: developer share through `distribute_mint_fees(fee, false, Some(dev))`, no discount,
+`hasCap = num_tokens.is_some()`); translation `OE.payOps` (core aspect op + re-synthesis of the whitelist record); the family has
+no `Shuffle`, so the simulation covers EVERY message (Lemmas/OpenEditionFullPay.lean). -/
+
+namespace OE
+
+def payRunOps (s : State) : List Op → List MintPay.Op
+  | [] => []
+  | op :: rest => payOps s op ++ payRunOps (step' s op) rest
+
+theorem pay_sim (s : State) (m : Minter) (hm : s.minter = some m) (op : Op) :
+    ∃ m', (step' s op).minter = some m' ∧ payOf (step' s op) m' = MintPay.run (payOf s m) (payOps s op) := by
+  rcases step'_cases s op with ⟨s', hok, hs'⟩ | ⟨⟨e, herr⟩, hs'⟩
+  · obtain ⟨m', hm', heq⟩ := pay_sim_ok hm hok
+    rw [hs']; exact ⟨m', hm', heq⟩
+  · rw [hs']; exact ⟨m, hm, (pay_sim_err hm herr).symm⟩
+
+theorem pay_run (s : State) (m : Minter) (hm : s.minter = some m) (ops : List Op) :
+    ∃ m', (run s ops).minter = some m' ∧ payOf (run s ops) m' = MintPay.run (payOf s m) (payRunOps s ops) := by
+  induction ops generalizing s m with
+  | nil => exact ⟨m, hm, rfl⟩
+  | cons op ops ih =>
+    obtain ⟨m1, hm1, heq⟩ := pay_sim s m hm op
+    obtain ⟨m', hm', hrun⟩ := ih (step' s op) m1 hm1
+    refine ⟨m', by rw [run_cons]; exact hm', ?_⟩
+    rw [run_cons, hrun, heq]
+    simp only [payRunOps]
+    rw [pay_run_append]
+
+/-- an accepted `Mint` / `MintTo`, as the aspect model's `mint` on the projected world -/
+theorem mint_is_pay_mint {s s' : State} {m : Minter} {op : Op} (hm : s.minter = some m) (h : step s op = .ok s')
+    (sender : Addr) (funds : List Coin) (isAdmin : Bool)
+    (hop : (∃ f sv, op = .mint sender funds f sv ∧ isAdmin = false) ∨ (∃ r, op = .mintTo sender funds r ∧ isAdmin = true)) :
+    MintPay.mint (payOf s m) sender isAdmin funds true = .ok { payOf s m with bank := s'.bank } ∧
+    ∃ price, mintPrice s m isAdmin = .ok price := by
+  rcases hop with ⟨f, sv, rfl, rfl⟩ | ⟨r, rfl, rfl⟩
+  · simp only [step] at h
+    obtain ⟨m0, hm0, h⟩ := withMinterS_ok h
+    rw [hm] at hm0; cases hm0
+    obtain ⟨b1, g, _, hb1, _, _, _, h⟩ := mintSender_ok h
+    obtain ⟨price, _, _, _, _, hp, _⟩ := executeMint_ok h
+    exact ⟨executeMint_pay hb1 h, price, hp⟩
+  · simp only [step] at h
+    obtain ⟨m0, hm0, h⟩ := withMinterS_ok h
+    rw [hm] at hm0; cases hm0
+    obtain ⟨b1, hb1, _, _, h⟩ := mintAdmin_ok h
+    obtain ⟨price, _, _, _, _, hp, _⟩ := executeMint_ok h
+    exact ⟨executeMint_pay hb1 h, price, hp⟩
+
+/-- nobody funds the minter directly, the minter is never its own payer, governance never names it as developer -/
+def PayAway (mi : Addr) (s : State) : Op → Prop
+  | .fund a _ => a ≠ mi
+  | .mint sender _ _ _ => sender ≠ mi
+  | .mintTo sender _ _ => sender ≠ mi
+  | .sudoParams u => ∀ p, updateParams s.params u = .ok p → p.dev.getD LAUNCHPAD_DAO ≠ mi
+  | _ => True
+
+def PayAwayRun (mi : Addr) (s : State) : List Op → Prop
+  | [] => True
+  | op :: rest => PayAway mi s op ∧ PayAwayRun mi (step' s op) rest
+
+theorem payOps_away (s : State) (op : Op) (mi : Addr) (h : PayAway mi s op) :
+    ∀ o ∈ payOps s op, LP.OpAway mi payVariant o := by
+  intro o ho
+  simp only [payOps, List.mem_append] at ho
+  rcases ho with ho | ho
+  · cases op <;> simp only [payCore] at ho
+    case setTime t => split at ho <;> simp at ho; subst ho; trivial
+    case fund a c => simp at ho; subst ho; exact h
+    case mint sender funds f sv => simp at ho; subst ho; exact ⟨h, Or.inl (by simp [payVariant])⟩
+    case mintTo sender funds r => simp at ho; subst ho; exact ⟨h, Or.inl (by simp [payVariant])⟩
+    case updateMintPrice sender funds p => simp at ho; subst ho; trivial
+    case sudoParams u =>
+      split at ho
+      · rename_i p hp
+        simp at ho; subst ho
+        exact h p hp
+      · simp at ho
+    all_goals simp at ho
+  · split at ho
+    · rename_i m' _
+      unfold resync at ho
+      split at ho
+      · simp at ho
+      · simp at ho; subst ho; trivial
+    · simp at ho
+
+theorem payRunOps_away (s : State) (ops : List Op) (mi : Addr) (h : PayAwayRun mi s ops) :
+    ∀ o ∈ payRunOps s ops, LP.OpAway mi payVariant o := by
+  induction ops generalizing s with
+  | nil => intro o ho; simp [payRunOps] at ho
+  | cons op ops ih =>
+    intro o ho
+    simp only [payRunOps, List.mem_append] at ho
+    rcases ho with ho | ho
+    · exact payOps_away s op mi h.1 o ho
+    · exact ih (step' s op) h.2 o ho
+
+end OE
+
+/-- the C02 simulation: one composite step (ANY message) = the translated aspect ops on the projection -/
+theorem C02_fulloe_refines (s : OE.State) (m : OE.Minter) (hm : s.minter = some m) (op : OE.Op) :
+    ∃ m', (OE.step' s op).minter = some m' ∧
+      OE.payOf (OE.step' s op) m' = MintPay.run (OE.payOf s m) (OE.payOps s op) :=
+  OE.pay_sim s m hm op
+
+/-- exact payment: every accepted `Mint` / `MintTo` attached exactly the price in force (nothing when it is zero) -/
+theorem C02_fulloe_exact_payment (s s' : OE.State) (m : OE.Minter) (op : OE.Op) (hm : s.minter = some m)
+    (h : OE.step s op = .ok s') (sender : Addr) (funds : List Coin) (isAdmin : Bool)
+    (hop : (∃ f sv, op = .mint sender funds f sv ∧ isAdmin = false) ∨ (∃ r, op = .mintTo sender funds r ∧ isAdmin = true)) :
+    ∃ price, OE.mintPrice s m isAdmin = .ok price ∧ funds = LP.exactFunds price := by
+  obtain ⟨hmint, price, hp⟩ := OE.mint_is_pay_mint hm h sender funds isAdmin hop
+  obtain ⟨price', hsel, hf⟩ := C02_exact_payment (OE.payOf s m) _ sender isAdmin funds true (Or.inr (Or.inl rfl)) hmint
+  have := OE.mintPrice_eq hp
+  rw [show (OE.payOf s m).v = OE.payVariant from rfl, show (OE.payOf s m).f = OE.payFactory s.params from rfl,
+    show (OE.payOf s m).m = OE.payMinter s m from rfl, show (OE.payOf s m).now = s.now from rfl, this] at hsel
+  cases hsel
+  exact ⟨price, hp, hf⟩
+
+/-- fee routing: the bank after an accepted mint = funds to the minter, `distribute_mint_fees(fee, false, Some(dev))` when the
+fee is non-zero (half to the developer, the rest 1/5 liquidity DAO, 4/5 launchpad DAO), `price − fee` to the seller, nothing else -/
+theorem C02_fulloe_fee_routing (s s' : OE.State) (m : OE.Minter) (op : OE.Op) (hm : s.minter = some m)
+    (h : OE.step s op = .ok s') (sender : Addr) (funds : List Coin) (isAdmin : Bool)
+    (hop : (∃ f sv, op = .mint sender funds f sv ∧ isAdmin = false) ∨ (∃ r, op = .mintTo sender funds r ∧ isAdmin = true)) :
+    ∃ price b1, OE.mintPrice s m isAdmin = .ok price ∧
+      s.bank.sendFunds sender m.addr (LP.exactFunds price) = some b1 ∧
+      OE.networkFee s.params isAdmin price ≤ price.amount ∧
+      MintPay.applyMsgs m.addr b1
+        ((if OE.networkFee s.params isAdmin price = 0 then []
+          else Sg1.distributeMintFees ⟨price.denom, OE.networkFee s.params isAdmin price⟩ false
+                 (some (s.params.dev.getD LAUNCHPAD_DAO))) ++
+         (if price.amount - OE.networkFee s.params isAdmin price = 0 then []
+          else [Msg.send (OE.seller m) ⟨price.denom, price.amount - OE.networkFee s.params isAdmin price⟩])) = some s'.bank := by
+  obtain ⟨hmint, price, hp⟩ := OE.mint_is_pay_mint hm h sender funds isAdmin hop
+  obtain ⟨price', b1, hsel, hb1, hle, happ⟩ :=
+    C02_fee_routing (OE.payOf s m) _ sender isAdmin funds true (Or.inr (Or.inl rfl)) hmint
+  have := OE.mintPrice_eq hp
+  rw [show (OE.payOf s m).v = OE.payVariant from rfl, show (OE.payOf s m).f = OE.payFactory s.params from rfl,
+    show (OE.payOf s m).m = OE.payMinter s m from rfl, show (OE.payOf s m).now = s.now from rfl, this] at hsel
+  cases hsel
+  rw [show (OE.payOf s m).f = OE.payFactory s.params from rfl, OE.networkFee_eq] at hle happ
+  exact ⟨price, b1, hp, hb1, hle, happ⟩
+
+/-- the minter contract's own balance is unchanged by every accepted mint whose payer is not the minter itself -/
+theorem C02_fulloe_minter_balance_unchanged (s s' : OE.State) (m : OE.Minter) (op : OE.Op) (hm : s.minter = some m)
+    (h : OE.step s op = .ok s') (sender : Addr) (funds : List Coin) (isAdmin : Bool)
+    (hop : (∃ f sv, op = .mint sender funds f sv ∧ isAdmin = false) ∨ (∃ r, op = .mintTo sender funds r ∧ isAdmin = true))
+    (hsm : sender ≠ m.addr)
+    (hrec : m.addr ∉ MintPay.recipients OE.payVariant (OE.payFactory s.params) (OE.payMinter s m)) (d : Denom) :
+    s'.bank.bal m.addr d = s.bank.bal m.addr d := by
+  obtain ⟨hmint, _⟩ := OE.mint_is_pay_mint hm h sender funds isAdmin hop
+  exact C02_minter_balance_unchanged (OE.payOf s m) _ sender isAdmin funds true hmint
+    (Or.inl (by simp [OE.payOf, OE.payVariant])) hsm hrec d
+
+/-- conservation: an accepted composite mint creates, loses and strands nothing; a sale burns nothing -/
+theorem C02_fulloe_conservation (s s' : OE.State) (m : OE.Minter) (op : OE.Op) (hm : s.minter = some m)
+    (h : OE.step s op = .ok s') (sender : Addr) (funds : List Coin) (isAdmin : Bool)
+    (hop : (∃ f sv, op = .mint sender funds f sv ∧ isAdmin = false) ∨ (∃ r, op = .mintTo sender funds r ∧ isAdmin = true))
+    (accts : List Addr) (hn : accts.Nodup) (hsnd : sender ∈ accts) (hmin : m.addr ∈ accts)
+    (hrec : ∀ a ∈ MintPay.recipients OE.payVariant (OE.payFactory s.params) (OE.payMinter s m), a ∈ accts)
+    (d : Denom) :
+    s'.bank.total accts d + s'.bank.burned d = s.bank.total accts d + s.bank.burned d ∧
+    s'.bank.minted d = s.bank.minted d ∧ s'.bank.burned d = s.bank.burned d := by
+  obtain ⟨hmint, _⟩ := OE.mint_is_pay_mint hm h sender funds isAdmin hop
+  obtain ⟨h1, h2, h3⟩ := C02_conservation (OE.payOf s m) _ sender isAdmin funds true accts hn hsnd hmin hrec hmint d
+  exact ⟨h1, h2, h3 (by simp [OE.payOf, OE.payVariant])⟩
+
+/-- the minter's own balance is unchanged after ANY composite history (every message kind of the family), as long as nobody
+funds the minter directly, the minter is not its own payer or payee and governance never makes it the developer -/
+theorem C02_fulloe_history_minter_never_holds (s : OE.State) (m : OE.Minter) (hm : s.minter = some m) (ops : List OE.Op)
+    (haway : OE.PayAwayRun m.addr s ops)
+    (hrec : m.addr ∉ MintPay.recipients OE.payVariant (OE.payFactory s.params) (OE.payMinter s m)) (d : Denom) :
+    (OE.run s ops).bank.bal m.addr d = s.bank.bal m.addr d := by
+  obtain ⟨m', _, heq⟩ := OE.pay_run s m hm ops
+  have := C02_history_minter_never_holds (OE.payOf s m) (OE.payRunOps s ops) hrec
+    (OE.payRunOps_away s ops m.addr haway) d
+  rw [← heq] at this
+  exact this
+
+/-! ## C04 — sale window and entitlement (open-edition shape)
+
+Projection `OE.swOf` (variant shape, clock, factory denom / minimum / airdrop price, and the edition's schedule INCLUDING the
+optional end time, price, limits, optional remaining count and the counter maps); the aspect model's structural whitelist pool
+is refreshed from the interface answers (`Op.wlEnv` with `VF.synthWl`) right before every op that reads it, exactly as for the
+vending family.  Translation `OE.swOps` = forward simulation with stuttering.  Environment assumptions (`OE.SwEnv`): one denom
+for the factory minimum and the airdrop price, coherent whitelist answers; along runs also: governance does not change the
+projected parameters. -/
+
+namespace OE
+
+theorem sw_sim (s : State) (m : Minter) (hm : s.minter = some m) (op : Op) (henv : SwEnv s)
+    (hps : swParams (step' s op).params = swParams s.params) (W : Nat → Option SaleWindow.Wl) :
+    ∃ m' W', (step' s op).minter = some m' ∧
+      SaleWindow.run (swOf s m W) (swOps s m op) = swOf (step' s op) m' W' := by
+  rcases step'_cases s op with ⟨s', hok, hs'⟩ | ⟨⟨e, herr⟩, hs'⟩
+  · rw [hs'] at hps ⊢
+    exact sw_sim_ok hm hok henv hps W
+  · rw [hs']
+    exact ⟨m, W, hm, by simp [swOps, accepted_of_err herr, sw_run_nil]⟩
+
+def swRunOps (s : State) : List Op → List SaleWindow.Op
+  | [] => []
+  | op :: rest =>
+    (match s.minter with
+     | some m => swOps s m op
+     | none => []) ++ swRunOps (step' s op) rest
+
+/-- the environment assumptions hold along the whole history -/
+def SwEnvRun (s : State) : List Op → Prop
+  | [] => True
+  | op :: rest => SwEnv s ∧ swParams (step' s op).params = swParams s.params ∧ SwEnvRun (step' s op) rest
+
+/-- **lift to runs** -/
+theorem sw_run (s : State) (m : Minter) (hm : s.minter = some m) (ops : List Op)
+    (henv : SwEnvRun s ops) (W : Nat → Option SaleWindow.Wl) :
+    ∃ m' W', (run s ops).minter = some m' ∧
+      SaleWindow.run (swOf s m W) (swRunOps s ops) = swOf (run s ops) m' W' := by
+  induction ops generalizing s m W with
+  | nil => exact ⟨m, W, hm, rfl⟩
+  | cons op ops ih =>
+    obtain ⟨h1, h2, h3⟩ := henv
+    obtain ⟨m1, W1, hm1, heq⟩ := sw_sim s m hm op h1 h2 W
+    obtain ⟨m', W', hm', hrun⟩ := ih (step' s op) m1 hm1 h3 W1
+    refine ⟨m', W', by rw [run_cons]; exact hm', ?_⟩
+    simp only [swRunOps, hm]
+    rw [sw_run_append, heq, hrun, run_cons]
+
+/-- the synthesised whitelist is active exactly when the interface says so -/
+theorem synth_isActive (i : Option VF.WlInfo) (now : Nat) (ms : List (Addr × Nat)) (ls : List SaleWindow.Leaf) :
+    (VF.synthWl i now ms ls).isActive now = (match i with | some i => i.active | none => false) := by
+  cases i with
+  | none => simp [VF.synthWl, SaleWindow.Wl.isActive, SaleWindow.Wl.activeStage, SaleWindow.WlKind.isTiered]
+  | some i =>
+    simp only [SaleWindow.Wl.isActive, VF.synth_activeStage]
+    cases i.active <;> simp
+
+end OE
+
+/-- the C04 simulation: one composite step = the translated aspect ops on the projection -/
+theorem C04_fulloe_refines (s : OE.State) (m : OE.Minter) (hm : s.minter = some m) (op : OE.Op)
+    (henv : OE.SwEnv s) (hps : OE.swParams (OE.step' s op).params = OE.swParams s.params)
+    (W : Nat → Option SaleWindow.Wl) :
+    ∃ m' W', (OE.step' s op).minter = some m' ∧
+      SaleWindow.run (OE.swOf s m W) (OE.swOps s m op) = OE.swOf (OE.step' s op) m' W' :=
+  OE.sw_sim s m hm op henv hps W
+
+/-- the two independently written whitelist gates agree (composite `is_public_mint`, including the extra
+`wl_mint_count < per_address_limit` of an uncapped -wl-flex edition, vs `SaleWindow.isPublicMint` on the synthesised
+whitelist) -/
+theorem C04_fulloe_gate_agrees (s : OE.State) (m : OE.Minter) (sender : Addr) (funds : List Coin) (f : MintLimits.Fields)
+    (sv : VF.SenderView) (g : VF.MintKind) (W : Nat → Option SaleWindow.Wl)
+    (hco : ∀ a i, m.whitelist = some a → s.wls a = some i → OE.InfoCoherent i)
+    (hW : ∀ a i, m.whitelist = some a → s.wls a = some i → W a = some (OE.mintWl i s.now sender f sv))
+    (hg : OE.isPublicMint s m sender f sv = .ok g) :
+    SaleWindow.isPublicMint (OE.swOf s m W) (OE.swMinter m) (OE.mintArgsOf s m sender funds f sv) = .ok (OE.swKindOf g) :=
+  OE.sw_isPublicMint W hco hW hg
+
+/-- "A public mint never succeeds before the mint start time" -/
+theorem C04_fulloe_public_after_start (s s' : OE.State) (m : OE.Minter) (hm : s.minter = some m) (sender : Addr)
+    (funds : List Coin) (f : MintLimits.Fields) (sv : VF.SenderView)
+    (h : OE.step s (.mint sender funds f sv) = .ok s') (henv : OE.SwEnv s)
+    (hna : ∀ a i, m.whitelist = some a → s.wls a = some i → i.active = false) : m.startTime ≤ s.now := by
+  simp only [OE.step] at h
+  obtain ⟨m0, hm0, h⟩ := OE.withMinterS_ok h
+  rw [hm] at hm0; cases hm0
+  obtain ⟨W1, _, hW1⟩ := OE.sw_refreshAttached s m (fun _ => none) (OE.membersOf sender sv) (OE.leavesOf sender f sv)
+  obtain ⟨m', _, hstep⟩ := OE.sw_mint_step h henv.infos W1 hW1
+  refine SaleWindow.C04_public_after_start (OE.swOf s m W1) _ (OE.swMinter m) _ rfl hstep ?_
+  rintro ⟨k, w, hk, hw, hact⟩
+  have hk' : m.whitelist = some k := hk
+  have hw' : W1 k = some w := hw
+  rw [hW1 k hk'] at hw'
+  cases hw'
+  have := OE.synth_isActive (s.wls k) s.now (OE.membersOf sender sv) (OE.leavesOf sender f sv)
+  rw [show (OE.swOf s m W1).now = s.now from rfl] at hact
+  rw [hact] at this
+  cases hi : s.wls k with
+  | none => rw [hi] at this; cases this
+  | some i =>
+    rw [hi] at this
+    have hx : i.active = true := this.symm
+    rw [hna k i hk' hi] at hx; cases hx
+
+/-- "While an attached whitelist is active, a buyer's mint succeeds only if the buyer is a member (or holds a valid Merkle
+proof bound to the sender) and is charged the whitelist price" -/
+theorem C04_fulloe_wl_gate (s s' : OE.State) (m : OE.Minter) (hm : s.minter = some m) (sender : Addr)
+    (funds : List Coin) (f : MintLimits.Fields) (sv : VF.SenderView)
+    (h : OE.step s (.mint sender funds f sv) = .ok s') (henv : OE.SwEnv s)
+    (a : Addr) (i : VF.WlInfo) (ha : m.whitelist = some a) (hi : s.wls a = some i) (hact : i.active = true) :
+    (sv.memberPlain = true ∨ sv.leafOk = true) ∧ mayPay funds i.price.denom = .ok i.price.amount := by
+  simp only [OE.step] at h
+  obtain ⟨m0, hm0, h⟩ := OE.withMinterS_ok h
+  rw [hm] at hm0; cases hm0
+  obtain ⟨W1, _, hW1⟩ := OE.sw_refreshAttached s m (fun _ => none) (OE.membersOf sender sv) (OE.leavesOf sender f sv)
+  obtain ⟨m', _, hstep⟩ := OE.sw_mint_step h henv.infos W1 hW1
+  have hWa : (OE.swOf s m W1).wls a = some (OE.mintWl i s.now sender f sv) := by
+    show W1 a = _
+    rw [hW1 a ha, hi]; rfl
+  have hactive : (OE.mintWl i s.now sender f sv).isActive (OE.swOf s m W1).now = true := by
+    show (VF.synthWl (some i) s.now _ _).isActive s.now = true
+    rw [OE.synth_isActive]; exact hact
+  obtain ⟨⟨st, hst, hent⟩, st', hst', hpay⟩ :=
+    SaleWindow.C04_wl_gate (OE.swOf s m W1) _ (OE.swMinter m) _ a _ rfl ha hWa hactive hstep
+  have hlive := VF.synth_activeStage i s.now (OE.membersOf sender sv) (OE.leavesOf sender f sv)
+  simp only [hact, if_true] at hlive
+  have hst1 : st = VF.liveStage i s.now (OE.membersOf sender sv) (OE.leavesOf sender f sv) := by
+    have : (OE.mintWl i s.now sender f sv).activeStage s.now = some st := hst
+    rw [show OE.mintWl i s.now sender f sv = VF.synthWl (some i) s.now _ _ from rfl, hlive] at this
+    cases this; rfl
+  have hst2 : st' = VF.liveStage i s.now (OE.membersOf sender sv) (OE.leavesOf sender f sv) := by
+    have : (OE.mintWl i s.now sender f sv).activeStage s.now = some st' := hst'
+    rw [show OE.mintWl i s.now sender f sv = VF.synthWl (some i) s.now _ _ from rfl, hlive] at this
+    cases this; rfl
+  subst hst1 hst2
+  refine ⟨?_, hpay⟩
+  rcases hent with hmem | ⟨idx, _, _, hleaf⟩
+  · left
+    cases hmp : sv.memberPlain with
+    | true => rfl
+    | false =>
+      exfalso
+      have hmem' : (VF.liveStage i s.now (OE.membersOf sender sv) (OE.leavesOf sender f sv)).hasMember sender = true := hmem
+      simp [SaleWindow.Stage.hasMember, VF.liveStage, OE.membersOf, hmp] at hmem'
+  · right
+    cases hlo : sv.leafOk with
+    | true => rfl
+    | false =>
+      exfalso
+      simp [VF.liveStage, OE.leavesOf, hlo] at hleaf
+
+/-- "no mint of any kind at or after the end": an accepted composite buyer `Mint` of an edition with an end time happened
+strictly before it -/
+theorem C04_fulloe_mint_before_end (s s' : OE.State) (m : OE.Minter) (hm : s.minter = some m) (sender : Addr)
+    (funds : List Coin) (f : MintLimits.Fields) (sv : VF.SenderView) (e : Nat) (he : m.endTime = some e)
+    (h : OE.step s (.mint sender funds f sv) = .ok s') (henv : OE.SwEnv s) : s.now < e := by
+  simp only [OE.step] at h
+  obtain ⟨m0, hm0, h⟩ := OE.withMinterS_ok h
+  rw [hm] at hm0; cases hm0
+  obtain ⟨W1, _, hW1⟩ := OE.sw_refreshAttached s m (fun _ => none) (OE.membersOf sender sv) (OE.leavesOf sender f sv)
+  obtain ⟨m', _, hstep⟩ := OE.sw_mint_step h henv.infos W1 hW1
+  exact SaleWindow.C04_oe_mint_before_end (OE.swOf s m W1) _ (OE.swMinter m) _ e rfl rfl he hstep
+
+/-- … and so did an accepted airdrop (`MintTo`, the only admin mint of the family) -/
+theorem C04_fulloe_airdrop_before_end (s s' : OE.State) (m : OE.Minter) (hm : s.minter = some m) (sender : Addr)
+    (funds : List Coin) (rcpt : Addr) (e : Nat) (he : m.endTime = some e)
+    (h : OE.step s (.mintTo sender funds rcpt) = .ok s') (henv : OE.SwEnv s) : s.now < e := by
+  simp only [OE.step] at h
+  obtain ⟨m0, hm0, h⟩ := OE.withMinterS_ok h
+  rw [hm] at hm0; cases hm0
+  obtain ⟨m', _, hstep⟩ := OE.sw_mintAdmin_step h henv.params (fun _ => none)
+  exact SaleWindow.C04_oe_airdrop_before_end (OE.swOf s m (fun _ => none)) _ (OE.swMinter m) sender rcpt funds e rfl rfl he hstep
+
+/-- the two together, in the property's words: at or after the end time EVERY message that mints (the family has no
+`MintFor`) is rejected by the composite -/
+theorem C04_fulloe_no_mint_at_or_after_end (s : OE.State) (m : OE.Minter) (hm : s.minter = some m) (e : Nat)
+    (he : m.endTime = some e) (hlate : e ≤ s.now) (henv : OE.SwEnv s) :
+    (∀ sender funds f sv, ∃ err, OE.step s (.mint sender funds f sv) = .error err) ∧
+    (∀ sender funds rcpt, ∃ err, OE.step s (.mintTo sender funds rcpt) = .error err) := by
+  constructor
+  · intro sender funds f sv
+    cases h : OE.step s (.mint sender funds f sv) with
+    | error err => exact ⟨err, rfl⟩
+    | ok s' => have := C04_fulloe_mint_before_end s s' m hm sender funds f sv e he h henv; omega
+  · intro sender funds rcpt
+    cases h : OE.step s (.mintTo sender funds rcpt) with
+    | error err => exact ⟨err, rfl⟩
+    | ok s' => have := C04_fulloe_airdrop_before_end s s' m hm sender funds rcpt e he h henv; omega
+
+/-- once `now ≥ start_time` has held, the start time and the attached whitelist are the same after EVERY composite
+continuation -/
+theorem C04_fulloe_started_is_final (s : OE.State) (m : OE.Minter) (hm : s.minter = some m)
+    (hstarted : m.startTime ≤ s.now) (ops : List OE.Op) (henv : OE.SwEnvRun s ops) :
+    ∃ m', (OE.run s ops).minter = some m' ∧ m'.startTime = m.startTime ∧ m'.whitelist = m.whitelist := by
+  obtain ⟨m', W', hm', heq⟩ := OE.sw_run s m hm ops henv (fun _ => none)
+  obtain ⟨m1, hm1, h1, h2⟩ :=
+    SaleWindow.C04_started_is_final (OE.swOf s m (fun _ => none)) (OE.swMinter m) (OE.swRunOps s ops) rfl hstarted
+  rw [heq] at hm1
+  simp only [OE.swOf, Option.some.injEq] at hm1
+  subst hm1
+  exact ⟨m', hm', h1, h2⟩
+
+/-- once `now ≥ end_time` has held, the end time is the same after EVERY composite continuation (`UpdateEndTime` included) -/
+theorem C04_fulloe_ended_is_final (s : OE.State) (m : OE.Minter) (hm : s.minter = some m) (e : Nat)
+    (he : m.endTime = some e) (hended : e ≤ s.now) (ops : List OE.Op) (henv : OE.SwEnvRun s ops) :
+    ∃ m', (OE.run s ops).minter = some m' ∧ m'.endTime = some e := by
+  obtain ⟨m', W', hm', heq⟩ := OE.sw_run s m hm ops henv (fun _ => none)
+  obtain ⟨m1, hm1, h1⟩ :=
+    SaleWindow.C04_ended_is_final (OE.swOf s m (fun _ => none)) (OE.swMinter m) e (OE.swRunOps s ops) rfl he hended
+  rw [heq] at hm1
+  simp only [OE.swOf, Option.some.injEq] at hm1
+  subst hm1
+  exact ⟨m', hm', h1⟩
+
+/-! ## C07 — price rules (open-edition rules)
+
+Projection `OE.priceOf` onto the whitelist-free part of `PriceRules.World` with `oe := true` (clock, factory minimum and airdrop
+price, public price, start time, END time, "has a token cap"; no discount); translation `OE.priceOps` (forward simulation with
+stuttering).  `UpdateEndTime` has no op in the aspect model (its `stop` is immutable), so the simulation is stated for every
+message except that one (`OE.NoEndUpdate`); `OE.price_updateEnd` says what it does to the projection. -/
+
+namespace OE
+
+/-- an ACCEPTED composite message other than `UpdateEndTime` acts on the projection as the translated aspect ops -/
+theorem price_sim_ok {s s' : State} {m : Minter} {op : Op} (hm : s.minter = some m) (h : step s op = .ok s')
+    (hne : NoEndUpdate op) :
+    ∃ m', s'.minter = some m' ∧ PriceRules.run (priceOf s m) (priceOps s op) = priceOf s' m' := by
+  have hacc := accepted_of_ok h
+  cases op with
+  | setTime t =>
+    simp only [step] at h; split at h <;> cases h
+    exact ⟨m, hm, by simp [priceOps, hacc, PriceRules.run, PriceRules.step', PriceRules.step, priceOf]⟩
+  | fund a c =>
+    simp only [step] at h; cases h
+    exact ⟨m, hm, by simp [priceOps, hacc, PriceRules.run]; rfl⟩
+  | wlEnv k i =>
+    simp only [step] at h; cases h
+    exact ⟨m, hm, by simp [priceOps, hacc, PriceRules.run]; rfl⟩
+  | sudoParams u =>
+    simp only [step] at h
+    split at h
+    · cases h
+    · rename_i p hp
+      cases h
+      exact ⟨m, hm, by simp only [priceOps, hacc, if_true]; exact price_sudo hp⟩
+  | create sender funds msg w =>
+    simp only [step] at h
+    obtain ⟨_, _, _, _, _, hnone, _⟩ := createMinter_ok h
+    rw [hm] at hnone; cases hnone
+  | instantiateDirect sender => simp [step] at h
+  | mint sender funds f sv =>
+    simp only [step] at h
+    obtain ⟨m0, hm0, h⟩ := withMinterS_ok h
+    rw [hm] at hm0; cases hm0
+    obtain ⟨b1, g, _, _, _, _, _, h⟩ := mintSender_ok h
+    obtain ⟨price, ms, sq, b2, _, _, _, _, _, _, _, rfl⟩ := executeMint_ok h
+    refine ⟨_, rfl, ?_⟩
+    simp only [priceOps, hacc, if_true, PriceRules.run, List.foldl_nil]
+    cases g with
+    | pub => rfl
+    | wl sid cnt => simp only [priceOf, priceMinter, bookCount]; split <;> rfl
+  | mintTo sender funds rcpt =>
+    simp only [step] at h
+    obtain ⟨m0, hm0, h⟩ := withMinterS_ok h
+    rw [hm] at hm0; cases hm0
+    obtain ⟨b1, _, _, _, h⟩ := mintAdmin_ok h
+    obtain ⟨price, ms, sq, b2, _, _, _, _, _, _, _, rfl⟩ := executeMint_ok h
+    exact ⟨_, rfl, by simp [priceOps, hacc, PriceRules.run]; rfl⟩
+  | updateMintPrice sender funds p =>
+    simp only [step] at h
+    obtain ⟨m0, m', hm0, hf, rfl⟩ := withMinter_ok h
+    rw [hm] at hm0; cases hm0
+    refine ⟨_, rfl, ?_⟩
+    simp only [priceOps, hacc, if_true, price_run_one]
+    exact price_step'_ok (price_updateMintPrice hf)
+  | updateStartTime sender funds t =>
+    simp only [step] at h
+    obtain ⟨m0, m', hm0, hf, rfl⟩ := withMinter_ok h
+    rw [hm] at hm0; cases hm0
+    refine ⟨_, rfl, ?_⟩
+    simp only [priceOps, hacc, if_true, price_run_one]
+    exact price_step'_ok (price_updateStart hf)
+  | updateEndTime sender funds t => exact absurd rfl (hne sender funds t)
+  | setWhitelist sender funds wl valid =>
+    simp only [step] at h
+    obtain ⟨m0, m', hm0, hf, rfl⟩ := withMinter_ok h
+    rw [hm] at hm0; cases hm0
+    obtain ⟨_, _, _, _, _, _, _, _, _, _, _, rfl⟩ := setWhitelist_ok hf
+    exact ⟨_, rfl, by simp [priceOps, hacc, PriceRules.run]; rfl⟩
+  | purge sender funds =>
+    simp only [step] at h
+    obtain ⟨m0, m', hm0, hf, rfl⟩ := withMinter_ok h
+    rw [hm] at hm0; cases hm0
+    obtain ⟨_, _, _, rfl⟩ := purge_ok hf
+    exact ⟨_, rfl, by simp [priceOps, hacc, PriceRules.run]; rfl⟩
+  | updateStartTradingTime sender funds t =>
+    simp only [step] at h
+    obtain ⟨m0, m', hm0, hf, rfl⟩ := withMinter_ok h
+    rw [hm] at hm0; cases hm0
+    obtain ⟨_, _, _, _, _, rfl⟩ := updateStartTradingTime_ok hf
+    exact ⟨_, rfl, by simp [priceOps, hacc, PriceRules.run]; rfl⟩
+  | updatePerAddressLimit sender funds n =>
+    simp only [step] at h
+    obtain ⟨m0, m', hm0, hf, rfl⟩ := withMinter_ok h
+    rw [hm] at hm0; cases hm0
+    obtain ⟨_, _, _, _, rfl⟩ := updatePerAddressLimit_ok hf
+    exact ⟨_, rfl, by simp [priceOps, hacc, PriceRules.run]; rfl⟩
+  | burnRemaining sender funds =>
+    simp only [step] at h
+    obtain ⟨m0, m', hm0, hf, rfl⟩ := withMinter_ok h
+    rw [hm] at hm0; cases hm0
+    obtain ⟨_, _, _, _, _, rfl⟩ := burnRemaining_ok hf
+    exact ⟨_, rfl, by simp [priceOps, hacc, PriceRules.run]; rfl⟩
+  | sudoStatus v b e =>
+    simp only [step] at h
+    obtain ⟨m0, m', hm0, hf, rfl⟩ := withMinter_ok h
+    rw [hm] at hm0; cases hm0
+    cases hf
+    exact ⟨_, rfl, by simp [priceOps, hacc, PriceRules.run]; rfl⟩
+  | collTransfer sender id to =>
+    simp only [step] at h
+    obtain ⟨m0, m', hm0, hf, rfl⟩ := withMinter_ok h
+    rw [hm] at hm0; cases hm0
+    obtain ⟨_, _, _, _, rfl⟩ := collTransfer_ok hf
+    exact ⟨_, rfl, by simp [priceOps, hacc, PriceRules.run]; rfl⟩
+  | collBurn sender id =>
+    simp only [step] at h
+    obtain ⟨m0, m', hm0, hf, rfl⟩ := withMinter_ok h
+    rw [hm] at hm0; cases hm0
+    obtain ⟨_, _, _, rfl⟩ := collBurn_ok hf
+    exact ⟨_, rfl, by simp [priceOps, hacc, PriceRules.run]; rfl⟩
+  | collTrading sender t =>
+    simp only [step] at h
+    obtain ⟨m0, c, hm0, _, rfl⟩ := onColl_ok h
+    rw [hm] at hm0; cases hm0
+    exact ⟨_, rfl, by simp [priceOps, hacc, PriceRules.run]; rfl⟩
+  | collCreator sender new =>
+    simp only [step] at h
+    obtain ⟨m0, c, hm0, _, rfl⟩ := onColl_ok h
+    rw [hm] at hm0; cases hm0
+    exact ⟨_, rfl, by simp [priceOps, hacc, PriceRules.run]; rfl⟩
+  | collFreeze sender =>
+    simp only [step] at h
+    obtain ⟨m0, c, hm0, _, rfl⟩ := onColl_ok h
+    rw [hm] at hm0; cases hm0
+    exact ⟨_, rfl, by simp [priceOps, hacc, PriceRules.run]; rfl⟩
+  | collOwn sender a =>
+    simp only [step] at h
+    obtain ⟨m0, c, hm0, _, rfl⟩ := onColl_ok h
+    rw [hm] at hm0; cases hm0
+    exact ⟨_, rfl, by simp [priceOps, hacc, PriceRules.run]; rfl⟩
+
+/-- one-step simulation, both outcomes -/
+theorem price_sim (s : State) (m : Minter) (hm : s.minter = some m) (op : Op) (hne : NoEndUpdate op) :
+    ∃ m', (step' s op).minter = some m' ∧ PriceRules.run (priceOf s m) (priceOps s op) = priceOf (step' s op) m' := by
+  rcases step'_cases s op with ⟨s', hok, hs'⟩ | ⟨⟨e, herr⟩, hs'⟩
+  · obtain ⟨m', hm', heq⟩ := price_sim_ok hm hok hne
+    rw [hs']; exact ⟨m', hm', heq⟩
+  · rw [hs']
+    exact ⟨m, hm, by simp [priceOps, accepted_of_err herr, PriceRules.run]⟩
+
+def priceRunOps (s : State) : List Op → List PriceRules.Op
+  | [] => []
+  | op :: rest => priceOps s op ++ priceRunOps (step' s op) rest
+
+theorem price_run_append (w : PriceRules.World) (a b : List PriceRules.Op) :
+    PriceRules.run w (a ++ b) = PriceRules.run (PriceRules.run w a) b := by
+  simp [PriceRules.run, List.foldl_append]
+
+/-- **lift to runs** (histories without `UpdateEndTime`) -/
+theorem price_run (s : State) (m : Minter) (hm : s.minter = some m) (ops : List Op) (hne : ∀ op ∈ ops, NoEndUpdate op) :
+    ∃ m', (run s ops).minter = some m' ∧ PriceRules.run (priceOf s m) (priceRunOps s ops) = priceOf (run s ops) m' := by
+  induction ops generalizing s m with
+  | nil => exact ⟨m, hm, rfl⟩
+  | cons op ops ih =>
+    obtain ⟨m1, hm1, heq⟩ := price_sim s m hm op (hne op (List.mem_cons_self ..))
+    obtain ⟨m', hm', hrun⟩ := ih (step' s op) m1 hm1 (fun o ho => hne o (List.mem_cons_of_mem _ ho))
+    refine ⟨m', by rw [run_cons]; exact hm', ?_⟩
+    simp only [priceRunOps]
+    rw [price_run_append, heq, hrun, run_cons]
+
+/-- what the aspect model's `create` checks for an open edition without a token cap -/
+theorem aspect_create_uncapped {w w' : PriceRules.World} {c : Addr} {price : Coin} {start : Nat} {stop : Option Nat}
+    {wl : Option Nat} (hoe : w.v.oe = true) (h : PriceRules.step w (.create c price start stop false wl) = .ok w') :
+    price.amount ≠ 0 ∧ w.fac.airdrop.amount ≠ 0 ∧ stop.isSome = true := by
+  simp only [PriceRules.step, PriceRules.createMinter] at h
+  split at h
+  · rename_i hc
+    simp only [PriceRules.createOk, hoe, if_true, Bool.false_or, Bool.and_eq_true, decide_eq_true_eq] at hc
+    obtain ⟨⟨_, ⟨⟨⟨h1, h2⟩, h3⟩, _⟩, _⟩, _⟩ := hc
+    exact ⟨h1, h2, h3⟩
+  · cases h
+
+/-- what the aspect model's `updateMintPrice` checks for an open edition beyond the family-independent rules -/
+theorem aspect_ump_oe {w w' : PriceRules.World} {s : Addr} {paid : Bool} {p : Nat} (hoe : w.v.oe = true)
+    (h : PriceRules.step w (.updateMintPrice s paid p) = .ok w') :
+    ∃ m, w.m = some m ∧ (∀ e, m.stop = some e → w.now < e) ∧ (m.hasCap = false → p ≠ 0) := by
+  simp only [PriceRules.step, PriceRules.updateMintPrice] at h
+  split at h
+  · cases h
+  · rename_i m hm
+    simp only [hoe, Bool.true_and] at h
+    refine ⟨m, hm, ?_, ?_⟩
+    · intro e he
+      rw [he] at h
+      by_cases hl : e ≤ w.now
+      · exfalso; simp [hl] at h; split at h <;> cases h
+      · omega
+    · intro hcap hp
+      exfalso
+      subst hp
+      simp [hcap] at h
+      repeat' (split at h)
+      all_goals cases h
+
+end OE
+
+/-- the C07 simulation: one composite step (any message but `UpdateEndTime`, which the aspect model lacks) = the translated
+aspect ops on the projection -/
+theorem C07_fulloe_refines (s : OE.State) (m : OE.Minter) (hm : s.minter = some m) (op : OE.Op) (hne : OE.NoEndUpdate op) :
+    ∃ m', (OE.step' s op).minter = some m' ∧
+      PriceRules.run (OE.priceOf s m) (OE.priceOps s op) = OE.priceOf (OE.step' s op) m' :=
+  OE.price_sim s m hm op hne
+
+/-- Clause 1 (floor) at creation, plus the open-edition creation rules: an accepted `CreateMinter` has its price in the denom
+of the factory minimum and at least that minimum; the start lies strictly in the future; and WITHOUT a token cap the price and
+the factory's airdrop price are non-zero and an end time is given -/
+theorem C07_fulloe_create_rules (s s' : OE.State) (sender : Addr) (funds : List Coin) (msg : OE.CreateMsg) (w : OE.CreateWit)
+    (h : OE.step s (.create sender funds msg w) = .ok s') :
+    s.params.minMintPrice.amount ≤ msg.mintPrice.amount ∧ s.params.minMintPrice.denom = msg.mintPrice.denom ∧
+    s.now < msg.startTime ∧
+    (msg.numTokens = none → msg.mintPrice.amount ≠ 0 ∧ s.params.airdropMintPrice.amount ≠ 0 ∧ msg.endTime.isSome = true) ∧
+    ∃ m', s'.minter = some m' ∧ m'.mintPrice = msg.mintPrice := by
+  obtain ⟨m', hm', hstep⟩ := OE.price_create h
+  have hfloor := C07_floor (OE.priceInit s) _ _ msg.mintPrice hstep rfl
+  obtain ⟨hc, _⟩ := C07_floor_effect (OE.priceInit s) _ _ hstep
+  obtain ⟨m2, hm2, hp, _⟩ := hc _ _ _ _ _ _ rfl
+  simp only [OE.priceOf, Option.some.injEq] at hm2
+  subst hm2
+  have hstep' := hstep
+  simp only [PriceRules.step] at hstep'
+  obtain ⟨_, hden, _, _, hfut, _⟩ := LP.create_ok hstep'
+  refine ⟨hfloor, hden, hfut rfl, ?_, m', hm', hp⟩
+  intro hn
+  rw [hn] at hstep
+  exact OE.aspect_create_uncapped rfl hstep
+
+/-- Clause 1 (floor) for `UpdateMintPrice`: an accepted one sets a price at least the factory minimum in force at that moment -/
+theorem C07_fulloe_floor (s s' : OE.State) (m : OE.Minter) (hm : s.minter = some m) (sender : Addr) (funds : List Coin) (p : Nat)
+    (h : OE.step s (.updateMintPrice sender funds p) = .ok s') : s.params.minMintPrice.amount ≤ p := by
+  simp only [OE.step] at h
+  obtain ⟨m0, m', hm0, hf, rfl⟩ := OE.withMinter_ok h
+  rw [hm] at hm0; cases hm0
+  exact C07_floor (OE.priceOf s m) _ _ ⟨m.mintPrice.denom, p⟩ (OE.price_updateMintPrice hf) rfl
+
+/-- Clause 1 (floor) for `SetWhitelist` — proved on the composite directly (the aspect model's immutable whitelists cannot
+represent the interface): an accepted `SetWhitelist` attaches a whitelist whose price is at least the factory minimum, in the
+factory's denom and (all three crates) in the edition's own denom -/
+theorem C07_fulloe_set_whitelist_floor (s s' : OE.State) (m : OE.Minter) (hm : s.minter = some m) (sender : Addr)
+    (funds : List Coin) (wl : Addr) (valid : Bool) (h : OE.step s (.setWhitelist sender funds wl valid) = .ok s') :
+    ∃ i, OE.wlConfig s m.v wl = .ok i ∧ s.params.minMintPrice.amount ≤ i.price.amount ∧
+      s.params.minMintPrice.denom = i.price.denom ∧ i.price.denom = m.mintPrice.denom := by
+  simp only [OE.step] at h
+  obtain ⟨m0, m', hm0, hf, rfl⟩ := OE.withMinter_ok h
+  rw [hm] at hm0; cases hm0
+  obtain ⟨i, _, _, _, _, _, hi, _, hden, hamt, hfd, _⟩ := OE.setWhitelist_ok hf
+  exact ⟨i, hi, hamt, hfd, hden⟩
+
+/-- Clause 2: "once the mint has started the public price can only be lowered" -/
+theorem C07_fulloe_only_lower_after_start (s s' : OE.State) (m : OE.Minter) (hm : s.minter = some m) (sender : Addr)
+    (funds : List Coin) (p : Nat) (hstarted : m.startTime ≤ s.now)
+    (h : OE.step s (.updateMintPrice sender funds p) = .ok s') :
+    p < m.mintPrice.amount ∧ ∃ m', s'.minter = some m' ∧ m'.mintPrice = ⟨m.mintPrice.denom, p⟩ := by
+  simp only [OE.step] at h
+  obtain ⟨m0, m', hm0, hf, rfl⟩ := OE.withMinter_ok h
+  rw [hm] at hm0; cases hm0
+  obtain ⟨hlt, m1, hm1, hp⟩ := C07_only_lower_after_start (OE.priceOf s m) _ sender _ p (OE.priceMinter m) rfl hstarted
+    (OE.price_updateMintPrice hf)
+  simp only [OE.priceOf, Option.some.injEq] at hm1
+  subst hm1
+  exact ⟨hlt, m', rfl, hp⟩
+
+/-- the open-edition rules of `UpdateMintPrice`: never at or after the end time, and an edition without a token cap never
+gets a zero price -/
+theorem C07_fulloe_update_rules (s s' : OE.State) (m : OE.Minter) (hm : s.minter = some m) (sender : Addr)
+    (funds : List Coin) (p : Nat) (h : OE.step s (.updateMintPrice sender funds p) = .ok s') :
+    (∀ e, m.endTime = some e → s.now < e) ∧ (m.numTokens = none → p ≠ 0) := by
+  simp only [OE.step] at h
+  obtain ⟨m0, m', hm0, hf, rfl⟩ := OE.withMinter_ok h
+  rw [hm] at hm0; cases hm0
+  obtain ⟨m1, hm1, hend, hz⟩ := OE.aspect_ump_oe (w := OE.priceOf s m) rfl (OE.price_updateMintPrice hf)
+  simp only [OE.priceOf, Option.some.injEq] at hm1
+  subst hm1
+  exact ⟨hend, fun hn => hz (by simp [OE.priceMinter, hn])⟩
+
+/-! ## C19 — trading start time
+
+Projection `OE.ttOf` (family `.openEdition`, clock, the factory's `max_trading_offset_secs`, the minter's address, admin, mint start and END time, and the
+collection's ownership / creator / frozen / trading-time record); translation `OE.ttOps` (forward simulation with stuttering);
+Lemmas/OpenEditionFullTrading.lean. -/
+
+namespace OE
+
+theorem tt_sim_ok {s s' : State} {m : Minter} {op : Op} (hm : s.minter = some m) (h : step s op = .ok s') :
+    ∃ m', s'.minter = some m' ∧ TT.run (ttOf s m) (ttOps s op) = ttOf s' m' := by
+  have hacc := accepted_of_ok h
+  cases op with
+  | setTime t =>
+    simp only [step] at h; split at h <;> cases h
+    exact ⟨m, hm, by simp [ttOps, hacc, TT.run, TT.step', TT.step, ttOf]⟩
+  | fund a c =>
+    simp only [step] at h; cases h
+    exact ⟨m, hm, by simp [ttOps, hacc, TT.run]; rfl⟩
+  | wlEnv k i =>
+    simp only [step] at h; cases h
+    exact ⟨m, hm, by simp [ttOps, hacc, TT.run]; rfl⟩
+  | sudoParams u =>
+    simp only [step] at h
+    split at h
+    · cases h
+    · rename_i p hp
+      cases h
+      refine ⟨m, hm, ?_⟩
+      have hoff : p.maxTradingOffsetSecs = u.maxTradingOffsetSecs.getD s.params.maxTradingOffsetSecs := by
+        unfold updateParams at hp
+        peel hp
+        cases hp; rfl
+      simp [ttOps, hacc, TT.run, TT.step', TT.step, ttOf, hoff]
+  | create sender funds msg w =>
+    simp only [step] at h
+    obtain ⟨_, _, _, _, _, hnone, _⟩ := createMinter_ok h
+    rw [hm] at hnone; cases hnone
+  | instantiateDirect sender => simp [step] at h
+  | mint sender funds f sv =>
+    simp only [step] at h
+    obtain ⟨m0, hm0, h⟩ := withMinterS_ok h
+    rw [hm] at hm0; cases hm0
+    obtain ⟨b1, g, _, _, _, _, _, h⟩ := mintSender_ok h
+    obtain ⟨price, ms, sup, b2, _, _, _, _, _, _, _, rfl⟩ := executeMint_ok h
+    refine ⟨_, rfl, ?_⟩
+    simp only [ttOps, hacc, if_true, TT.run, List.foldl_nil]
+    cases g with
+    | pub => rfl
+    | wl sid cnt => simp only [ttOf, ttMinter, bookCount]; split <;> rfl
+  | mintTo sender funds rcpt =>
+    simp only [step] at h
+    obtain ⟨m0, hm0, h⟩ := withMinterS_ok h
+    rw [hm] at hm0; cases hm0
+    obtain ⟨b1, _, _, _, h⟩ := mintAdmin_ok h
+    obtain ⟨price, ms, sup, b2, _, _, _, _, _, _, _, rfl⟩ := executeMint_ok h
+    exact ⟨_, rfl, by simp [ttOps, hacc, TT.run]; rfl⟩
+  | updateStartTradingTime sender funds t =>
+    simp only [step] at h
+    obtain ⟨m0, m', hm0, hf, rfl⟩ := withMinter_ok h
+    rw [hm] at hm0; cases hm0
+    refine ⟨_, rfl, ?_⟩
+    simp only [ttOps, hacc, if_true, tt_run_one]
+    exact tt_step'_ok (tt_updTrading hf)
+  | updateStartTime sender funds t =>
+    simp only [step] at h
+    obtain ⟨m0, m', hm0, hf, rfl⟩ := withMinter_ok h
+    rw [hm] at hm0; cases hm0
+    refine ⟨_, rfl, ?_⟩
+    simp only [ttOps, hacc, if_true, tt_run_one]
+    exact tt_step'_ok (tt_updStart hf)
+  | updateEndTime sender funds t =>
+    simp only [step] at h
+    obtain ⟨m0, m', hm0, hf, rfl⟩ := withMinter_ok h
+    rw [hm] at hm0; cases hm0
+    refine ⟨_, rfl, ?_⟩
+    simp only [ttOps, hacc, if_true, tt_run_one]
+    exact tt_step'_ok (tt_updEnd hf)
+  | setWhitelist sender funds wl valid =>
+    simp only [step] at h
+    obtain ⟨m0, m', hm0, hf, rfl⟩ := withMinter_ok h
+    rw [hm] at hm0; cases hm0
+    obtain ⟨_, _, _, _, _, _, _, _, _, _, _, rfl⟩ := setWhitelist_ok hf
+    exact ⟨_, rfl, by simp [ttOps, hacc, TT.run]; rfl⟩
+  | purge sender funds =>
+    simp only [step] at h
+    obtain ⟨m0, m', hm0, hf, rfl⟩ := withMinter_ok h
+    rw [hm] at hm0; cases hm0
+    obtain ⟨_, _, _, rfl⟩ := purge_ok hf
+    exact ⟨_, rfl, by simp [ttOps, hacc, TT.run]; rfl⟩
+  | updateMintPrice sender funds p =>
+    simp only [step] at h
+    obtain ⟨m0, m', hm0, hf, rfl⟩ := withMinter_ok h
+    rw [hm] at hm0; cases hm0
+    obtain ⟨_, _, _, _, _, _, rfl⟩ := updateMintPrice_ok hf
+    exact ⟨_, rfl, by simp [ttOps, hacc, TT.run]; rfl⟩
+  | updatePerAddressLimit sender funds n =>
+    simp only [step] at h
+    obtain ⟨m0, m', hm0, hf, rfl⟩ := withMinter_ok h
+    rw [hm] at hm0; cases hm0
+    obtain ⟨_, _, _, _, rfl⟩ := updatePerAddressLimit_ok hf
+    exact ⟨_, rfl, by simp [ttOps, hacc, TT.run]; rfl⟩
+  | burnRemaining sender funds =>
+    simp only [step] at h
+    obtain ⟨m0, m', hm0, hf, rfl⟩ := withMinter_ok h
+    rw [hm] at hm0; cases hm0
+    obtain ⟨_, _, _, _, _, rfl⟩ := burnRemaining_ok hf
+    exact ⟨_, rfl, by simp [ttOps, hacc, TT.run]; rfl⟩
+  | sudoStatus v b e =>
+    simp only [step] at h
+    obtain ⟨m0, m', hm0, hf, rfl⟩ := withMinter_ok h
+    rw [hm] at hm0; cases hm0
+    cases hf
+    exact ⟨_, rfl, by simp [ttOps, hacc, TT.run]; rfl⟩
+  | collTransfer sender id to =>
+    simp only [step] at h
+    obtain ⟨m0, m', hm0, hf, rfl⟩ := withMinter_ok h
+    rw [hm] at hm0; cases hm0
+    obtain ⟨_, _, _, _, rfl⟩ := collTransfer_ok hf
+    exact ⟨_, rfl, by simp [ttOps, hacc, TT.run]; rfl⟩
+  | collBurn sender id =>
+    simp only [step] at h
+    obtain ⟨m0, m', hm0, hf, rfl⟩ := withMinter_ok h
+    rw [hm] at hm0; cases hm0
+    obtain ⟨_, _, _, rfl⟩ := collBurn_ok hf
+    exact ⟨_, rfl, by simp [ttOps, hacc, TT.run]; rfl⟩
+  | collTrading sender t =>
+    simp only [step] at h
+    obtain ⟨m0, c, hm0, hc, rfl⟩ := onColl_ok h
+    rw [hm] at hm0; cases hm0
+    refine ⟨_, rfl, ?_⟩
+    simp only [ttOps, hacc, if_true, tt_run_one]
+    exact tt_step'_ok (by simp only [TT.step]; exact tt_onColl hc)
+  | collCreator sender new =>
+    simp only [step] at h
+    obtain ⟨m0, c, hm0, hc, rfl⟩ := onColl_ok h
+    rw [hm] at hm0; cases hm0
+    refine ⟨_, rfl, ?_⟩
+    simp only [ttOps, hacc, if_true, tt_run_one]
+    exact tt_step'_ok (by simp only [TT.step]; exact tt_onColl hc)
+  | collFreeze sender =>
+    simp only [step] at h
+    obtain ⟨m0, c, hm0, hc, rfl⟩ := onColl_ok h
+    rw [hm] at hm0; cases hm0
+    refine ⟨_, rfl, ?_⟩
+    simp only [ttOps, hacc, if_true, tt_run_one]
+    exact tt_step'_ok (by simp only [TT.step]; exact tt_onColl hc)
+  | collOwn sender a =>
+    simp only [step] at h
+    obtain ⟨m0, c, hm0, hc, rfl⟩ := onColl_ok h
+    rw [hm] at hm0; cases hm0
+    refine ⟨_, rfl, ?_⟩
+    simp only [ttOps, hacc, if_true, tt_run_one]
+    exact tt_step'_ok (by simp only [TT.step]; exact tt_onColl hc)
+
+theorem tt_sim (s : State) (m : Minter) (hm : s.minter = some m) (op : Op) :
+    ∃ m', (step' s op).minter = some m' ∧ TT.run (ttOf s m) (ttOps s op) = ttOf (step' s op) m' := by
+  rcases step'_cases s op with ⟨s', hok, hs'⟩ | ⟨⟨e, herr⟩, hs'⟩
+  · obtain ⟨m', hm', heq⟩ := tt_sim_ok hm hok
+    rw [hs']; exact ⟨m', hm', heq⟩
+  · rw [hs']
+    exact ⟨m, hm, by simp [ttOps, accepted_of_err herr, TT.run]⟩
+
+def ttRunOps (s : State) : List Op → List TT.Op
+  | [] => []
+  | op :: rest => ttOps s op ++ ttRunOps (step' s op) rest
+
+theorem tt_run_append (w : TT.World) (a b : List TT.Op) : TT.run w (a ++ b) = TT.run (TT.run w a) b := by
+  simp [TT.run, List.foldl_append]
+
+/-- **lift to runs** -/
+theorem tt_run (s : State) (m : Minter) (hm : s.minter = some m) (ops : List Op) :
+    ∃ m', (run s ops).minter = some m' ∧ TT.run (ttOf s m) (ttRunOps s ops) = ttOf (run s ops) m' := by
+  induction ops generalizing s m with
+  | nil => exact ⟨m, hm, rfl⟩
+  | cons op ops ih =>
+    obtain ⟨m1, hm1, heq⟩ := tt_sim s m hm op
+    obtain ⟨m', hm', hrun⟩ := ih (step' s op) m1 hm1
+    refine ⟨m', by rw [run_cons]; exact hm', ?_⟩
+    simp only [ttRunOps]
+    rw [tt_run_append, heq, hrun, run_cons]
+
+/-- messages sent to the collection come from anybody but the minter contract's own address -/
+def CollExternal (mi : Addr) : Op → Prop
+  | .collTrading sender _ => sender ≠ mi
+  | .collCreator sender _ => sender ≠ mi
+  | .collFreeze sender => sender ≠ mi
+  | .collOwn sender _ => sender ≠ mi
+  | _ => True
+
+theorem ttOps_external (s : State) (op : Op) (mi : Addr) (h : CollExternal mi op) :
+    ∀ o ∈ ttOps s op, TT.Op.External mi o := by
+  intro o ho
+  unfold ttOps at ho
+  split at ho
+  · cases op <;> simp at ho <;> subst ho <;> first | trivial | exact h
+  · simp at ho
+
+theorem ttRunOps_external (s : State) (ops : List Op) (mi : Addr) (h : ∀ op ∈ ops, CollExternal mi op) :
+    ∀ o ∈ ttRunOps s ops, TT.Op.External mi o := by
+  induction ops generalizing s with
+  | nil => intro o ho; simp [ttRunOps] at ho
+  | cons op ops ih =>
+    intro o ho
+    simp only [ttRunOps, List.mem_append] at ho
+    rcases ho with ho | ho
+    · exact ttOps_external s op mi (h op (List.mem_cons_self ..)) o ho
+    · exact ih (step' s op) (fun x hx => h x (List.mem_cons_of_mem _ hx)) o ho
+
+end OE
+
+/-- the C19 simulation: one composite step = the translated aspect ops on the projection -/
+theorem C19_fulloe_refines (s : OE.State) (m : OE.Minter) (hm : s.minter = some m) (op : OE.Op) :
+    ∃ m', (OE.step' s op).minter = some m' ∧ TT.run (OE.ttOf s m) (OE.ttOps s op) = OE.ttOf (OE.step' s op) m' :=
+  OE.tt_sim s m hm op
+
+/-- Clause 1 — creation: the trading start time a `CreateMinter` stores in the collection is no later than mint start plus the
+offset in force, defaults to exactly that, is the requested value otherwise; the new collection is owned by the minter -/
+theorem C19_fulloe_create_bound (s s' : OE.State) (sender : Addr) (funds : List Coin) (msg : OE.CreateMsg) (w : OE.CreateWit)
+    (h : OE.step s (.create sender funds msg w) = .ok s') :
+    ∃ m' t, s'.minter = some m' ∧ m'.tt.trading = some t ∧ m'.startTime = msg.startTime ∧
+      t ≤ msg.startTime + s.params.maxTradingOffsetSecs * 1000000000 ∧
+      (msg.trading = none → t = msg.startTime + s.params.maxTradingOffsetSecs * 1000000000) ∧
+      (∀ x, msg.trading = some x → t = x) ∧
+      m'.tt.owner = some w.minterAddr ∧ m'.tt.pending = none ∧ m'.admin = msg.creator ∧ m'.tt.creator = msg.creator := by
+  obtain ⟨ck, m', _, hm', hstep⟩ := OE.tt_create h
+  obtain ⟨mm, c, t, hmc, h1, h2, h3, h4, h5, h6, h7, h8, h9⟩ :=
+    C19_create_bound (OE.ttInit s w.minterAddr) _ ck msg.creator msg.startTime msg.endTime msg.trading (by simp [OE.ttInit]) hstep
+  simp only [OE.ttOf, Option.some.injEq, Prod.mk.injEq] at hmc
+  obtain ⟨rfl, rfl⟩ := hmc
+  exact ⟨m', t, hm', h1, h2, h3, h4, h5, h6, h7, h8, h9⟩
+
+/-- Clause 2 — update: an accepted `UpdateStartTradingTime(Some t)` has `now ≤ t ≤ mint start + offset` with the mint start
+and offset in force at that moment, and `t` is what the collection then shows -/
+theorem C19_fulloe_update_bound (s s' : OE.State) (m : OE.Minter) (hm : s.minter = some m) (sender : Addr)
+    (funds : List Coin) (t : Nat) (h : OE.step s (.updateStartTradingTime sender funds (some t)) = .ok s') :
+    s.now ≤ t ∧ t ≤ m.startTime + s.params.maxTradingOffsetSecs * 1000000000 ∧
+      ∃ m', s'.minter = some m' ∧ m'.tt.trading = some t := by
+  simp only [OE.step] at h
+  obtain ⟨m0, m', hm0, hf, rfl⟩ := OE.withMinter_ok h
+  rw [hm] at hm0; cases hm0
+  obtain ⟨mm, c, hmc, h1, h2, h3⟩ := C19_update_bound (OE.ttOf s m) _ sender t 0 (OE.tt_updTrading hf)
+  simp only [OE.ttOf, Option.some.injEq, Prod.mk.injEq] at hmc
+  obtain ⟨rfl, rfl⟩ := hmc
+  refine ⟨h1, h2 (by simp [OE.ttOf]), m', rfl, ?_⟩
+  simpa [TT.visible, OE.ttOf] using h3
+
+/-- Clause 4 over composite histories: as long as nobody but the minter contract sends from the minter's address, the collection
+stays owned by the minter, and the trading time visible in the collection is always the one stored by the most recent VALIDATED
+write (the creation or an accepted minter `UpdateStartTradingTime`) of the history -/
+theorem C19_fulloe_validated_history (s : OE.State) (m : OE.Minter) (hm : s.minter = some m)
+    (hown : m.tt.owner = some m.addr ∧ m.tt.pending = none) (ops : List OE.Op)
+    (hext : ∀ op ∈ ops, OE.CollExternal m.addr op) :
+    ∃ m', (OE.run s ops).minter = some m' ∧ m'.tt.owner = some m.addr ∧ m'.tt.pending = none ∧
+      some m'.tt.trading =
+        ((TT.validatedHistory (OE.ttOf s m) (OE.ttRunOps s ops)).getLast?).getD (some m.tt.trading) := by
+  obtain ⟨m', hm', heq⟩ := OE.tt_run s m hm ops
+  have hinv : TT.OwnerInv (OE.ttOf s m) := by
+    intro mm c hmc
+    simp only [OE.ttOf, Option.some.injEq, Prod.mk.injEq] at hmc
+    obtain ⟨_, rfl⟩ := hmc
+    exact hown
+  have hx := OE.ttRunOps_external s ops m.addr hext
+  obtain ⟨hinv', hma, _⟩ := C19_owner_stable (OE.ttOf s m) (OE.ttRunOps s ops) hinv hx
+  have hval := C19_validated_history (OE.ttOf s m) (OE.ttRunOps s ops) hinv hx
+  rw [heq] at hinv' hval hma
+  obtain ⟨ho, hp⟩ := hinv' (OE.ttMinter m') m'.tt rfl
+  refine ⟨m', hm', ?_, hp, ?_⟩
+  · rw [ho]; exact congrArg some hma
+  · simpa [TT.visible, OE.ttOf] using hval
+
+/-- FRAME for the two schedule messages of an open edition: an accepted `UpdateStartTime` or `UpdateEndTime` leaves the trading
+time stored in the collection untouched (a later move of the mint start or of the end does not retroactively alter it) -/
+theorem C19_fulloe_schedule_frame (s s' : OE.State) (m : OE.Minter) (hm : s.minter = some m)
+    (hown : m.tt.owner = some m.addr ∧ m.tt.pending = none) (sender : Addr) (funds : List Coin) (t : Nat)
+    (h : OE.step s (.updateStartTime sender funds t) = .ok s' ∨ OE.step s (.updateEndTime sender funds t) = .ok s') :
+    ∃ m', s'.minter = some m' ∧ m'.tt.trading = m.tt.trading := by
+  have hinv : TT.OwnerInv (OE.ttOf s m) := by
+    intro mm c hmc
+    simp only [OE.ttOf, Option.some.injEq, Prod.mk.injEq] at hmc
+    obtain ⟨_, rfl⟩ := hmc
+    exact hown
+  rcases h with h | h
+  · simp only [OE.step] at h
+    obtain ⟨m0, m', hm0, hf, rfl⟩ := OE.withMinter_ok h
+    rw [hm] at hm0; cases hm0
+    have := C19_frame (OE.ttOf s m) _ (.updStart sender t 0) hinv trivial rfl (OE.tt_updStart hf)
+    exact ⟨m', rfl, by simpa [TT.visible, OE.ttOf] using this⟩
+  · simp only [OE.step] at h
+    obtain ⟨m0, m', hm0, hf, rfl⟩ := OE.withMinter_ok h
+    rw [hm] at hm0; cases hm0
+    have := C19_frame (OE.ttOf s m) _ (.updEnd sender t 0) hinv trivial rfl (OE.tt_updEnd hf)
+    exact ⟨m', rfl, by simpa [TT.visible, OE.ttOf] using this⟩
+
+/-! ## Non-vacuity: concrete composite histories (kernel-evaluated) in which the hypotheses above hold and mints succeed -/
+
+def coParams : OE.Params :=
+  { codeId := 7, allowed := [16], frozen := false, creationFee := ⟨0, 1000⟩, minMintPrice := ⟨0, 50⟩, mintFeeBps := 1000,
+    maxTradingOffsetSecs := 3600, maxTokenLimit := 100, maxPerAddressLimit := 5, airdropMintFeeBps := 10000,
+    airdropMintPrice := ⟨0, 100⟩, dev := some 40 }
+
+def coT0 : Nat := 1647032400000000000
+
+/-- a fresh open-edition factory; code ids 7, 8, 9 = open-edition-minter, -wl-flex, -merkle-wl; 16 = `sg721-base` -/
+def coInit : OE.State := OE.init coT0 ⟨[7, 8, 9], [16, 17, 18, 19]⟩ 1000 coParams
+
+/-- an UNCAPPED edition (no `num_tokens`) with an end time -/
+def coCreate (wl : Option Addr) : OE.Op :=
+  .create 10 [⟨0, 1000⟩]
+    { collCode := 16, creator := 10, trading := none, nftValid := true, onChain := false, uriOk := true,
+      paymentAddress := some 12, startTime := coT0 + 100, endTime := some (coT0 + 1000), numTokens := none,
+      mintPrice := ⟨0, 1000⟩, perAddressLimit := 2, whitelist := wl, whitelistValid := true, collOk := true }
+    { minterAddr := 1001, collAddr := 1002 }
+
+/-- fund, create, reach the start, two public mints by 20 (ids 1, 2), an airdrop by the admin, then the end time: every
+further mint and airdrop is refused -/
+def coOps : List OE.Op :=
+  [.fund 10 ⟨0, 5000⟩, .fund 20 ⟨0, 5000⟩, coCreate none, .setTime (coT0 + 100),
+   .mint 20 [⟨0, 1000⟩] {} {}, .mint 20 [⟨0, 1000⟩] {} {}, .mintTo 10 [⟨0, 100⟩] 30,
+   .setTime (coT0 + 1000), .mint 20 [⟨0, 1000⟩] {} {}, .mintTo 10 [⟨0, 100⟩] 31]
+
+example : coInit.minter.isNone = true := by decide
+
+/-- sequential ids 1, 2, 3; open-edition-minter captured the factory-wide limit (100) as its counter at creation; after the end
+nothing more is minted -/
+example : (OE.run coInit coOps).minter.map (fun m => (m.seq.issued, m.seq.mintable, m.pub 20, m.seq.coll.toks)) =
+    some ([3, 2, 1], some 97, 2, [(3, 30), (2, 20), (1, 20)]) := by decide
+
+/-- each sale: 100 (10 %) through `distribute_mint_fees(…, false, Some(dev))`, 900 to the payment address; the minter keeps
+nothing -/
+example : ((OE.run coInit coOps).bank.bal 20 0, (OE.run coInit coOps).bank.bal 12 0, (OE.run coInit coOps).bank.bal 40 0,
+    (OE.run coInit coOps).bank.bal 1001 0) = (3000, 1800, 150, 0) := by decide
+
+def coWl (active : Bool) : VF.WlInfo :=
+  { kind := .plain, active := active, price := ⟨0, 500⟩, limit := 1, merkleCfg := false, stageId := 0, stageLimit := none }
+
+/-- a plain whitelist at 1005 (inactive at creation), active afterwards: member 21 mints once at the whitelist price BEFORE the
+public start, a second whitelist mint and a non-member are refused -/
+def coWlOps : List OE.Op :=
+  [.fund 10 ⟨0, 5000⟩, .fund 21 ⟨0, 5000⟩, .fund 22 ⟨0, 5000⟩, .wlEnv 1005 (some (coWl false)), coCreate (some 1005),
+   .wlEnv 1005 (some (coWl true)), .setTime (coT0 + 50),
+   .mint 21 [⟨0, 500⟩] {} { memberPlain := true },
+   .mint 21 [⟨0, 500⟩] {} { memberPlain := true },
+   .mint 22 [⟨0, 500⟩] {} { memberPlain := false }]
+
+example : (OE.run coInit coWlOps).minter.map (fun m => (m.seq.issued, m.wlc 21, m.wlc 22, m.pub 21, m.whitelist)) =
+    some ([1], 1, 0, 0, some 1005) := by decide
+
+example : OE.SwEnv coInit :=
+  ⟨rfl, fun a i h => by simp [coInit, OE.init] at h⟩
+
+example : OE.InfoCoherent (coWl true) := fun h => by simp [coWl, MintLimits.WlKind.tieredName] at h
 
 end LP
